@@ -103,7 +103,7 @@ impl Engine for StoreSim {
                 level: "fault_enumeration",
                 rule: "seeded histories of 5-40 appends submitted without waiting for their acknowledgement under sync policies that leave an unsynced tail (timer-only, by bytes, by events, defaults); at 2-5 crash instants per history every power-loss cut k of the live segment's unsynced tail is built from the fsync ledger (image = bytes written up to k + durable bytes after k; every byte when the tail <= 4 KiB and below the cap, else record/field boundaries +-1 plus PRNG cuts) and reopened: open must succeed, the state must equal the model after a per-bucket prefix of the written transactions containing every acknowledged one, all read APIs must work, three further appends must continue the numbering, a second reopen must succeed. Non-trivial = cuts strictly inside a transaction or record; distinct by (history hash, model hash).",
                 quick_runs: 64,
-                thorough_runs: 1000,
+                thorough_runs: 320,
                 real_components: DB_REAL,
                 stub_components: DB_STUB,
                 assumptions: DB_ASSUME,
